@@ -24,6 +24,8 @@ structure FrameOut where
   bytes : List Nat
   /-- what a correct decoder must produce for every channel (frame coordinates, unblended) -/
   expected : List Chan
+  /-- what the decoder *model* (flattened trees, as the Rust does it) produces from the tokens -/
+  modelDecoded : Option (List Chan)
   /-- statistics for coverage accounting -/
   paths : List String
   numGroups : Nat
@@ -138,6 +140,39 @@ def encodeFrame (img : ImgHdr) (p : FramePlan) : Option FrameOut :=
                 else [lfGlobal] ++ List.replicate numLf [] ++ [[]] ++ groupSecs
               let paths := (List.range globalCh.length).map fun i =>
                 decodePath (flatten i 0 0 p.tree)
-              some { bytes := writeFrame img f sections, expected, paths, numGroups }
+              -- decoder model on the same tokens
+              let gInfos := globalCh.map (·.1)
+              let mGlobal := decodeChannels sb p.tree p.wp 0 gInfos 0 [] (gtoks.map (·.2))
+              let mPieces := (pieces.zip ptoks).map fun (pc, toks) =>
+                decodeChannels sb p.tree p.wp pc.stream (pc.chans.map (·.1)) 0 [] (toks.map (·.2))
+              let modelDecoded : Option (List Chan) :=
+                match mGlobal with
+                | none => none
+                | some (gch, _) =>
+                  if mPieces.any Option.isNone then none
+                  else
+                    -- paste the group pieces back into full coded channels
+                    let restInfos := restCh.map (·.1)
+                    let rebuilt := (List.range restInfos.length).map fun ci =>
+                      let inf := restInfos.getD ci default
+                      let gw := groupDim / 2 ^ inf.hshift.toNat
+                      let gh := groupDim / 2 ^ inf.vshift.toNat
+                      Chan.ofFn inf.w inf.h fun x y =>
+                        let g := (y / gh) * gcols + (x / gw)
+                        -- index of this channel among the non-empty channels of piece g
+                        let pc := pieces.getD g { stream := 0, chans := [] }
+                        let before := (List.range ci).filter fun cj =>
+                          let infj := restInfos.getD cj default
+                          let gwj := groupDim / 2 ^ infj.hshift.toNat
+                          let ghj := groupDim / 2 ^ infj.vshift.toNat
+                          let gx := g % gcols
+                          let gy := g / gcols
+                          min gwj (infj.w - gx * gwj) != 0 ∧ min ghj (infj.h - gy * ghj) != 0
+                        let _ := pc
+                        match mPieces.getD g none with
+                        | some (chs, _) => (chs.getD before.length default).get (x % gw) (y % gh)
+                        | none => 0
+                    some (inverseAll sb img.bits p.wp ts (gch ++ rebuilt))
+              some { bytes := writeFrame img f sections, expected, modelDecoded, paths, numGroups }
 
 end Jxl.Enc
